@@ -432,14 +432,21 @@ def gen_world(src, profile):
     if profile.get("class_dnc") and src.chance(1, 8):
         # class-level do_not_copy=True: "effectively making all mutations in-place" - also the ones that then fail half-way
         mdesc["opts"]["do_not_copy"] = True
-    if profile.get("cached_props") and src.chance(1, 3):
+    if profile.get("cached_props") and src.chance(1, 2):
         cands = [a for a in m_attrs if a["default"][0] in ("lit", "attr_factory") and not any(k in a for k in ("init", "repr", "compare", "invalidated_by", "do_not_copy"))
                  and a["type"][0] in ("int", "list", "dict", "set")]
+        views = [a for a in cands if a["type"][0] in ("list", "dict", "set")]
+        if views and src.chance(1, 3):
+            # a managed collection attribute that is a VIEW: its (non-caching) getter hands out a collection the instance itself
+            # owns (kept under an unmanaged name, empty at first)
+            v = src.pick(views)
+            v["default"] = ["view_prop", v["type"][0]]
+            cands = [a for a in cands if a is not v]
         if cands:
             a = src.pick(cands)
             a["default"] = ["cached_prop", a["default"][1]]
             rest = [b for b in cands if b is not a]
-            if rest and src.chance(1, 2):
+            if rest and src.chance(2, 3):
                 # a second managed attribute derived WITHOUT caching from the cached one: reading it (as every update / transform /
                 # element helper must) evaluates the caching getter too
                 b = src.pick(rest)
@@ -687,6 +694,10 @@ class World:
 
                     # a managed attribute whose value is derived (and cached on first read) until it is assigned
                     ns[a["name"]] = spec_property(self._factory_getter(d[1]), cache=True, overridable=True)
+                elif style == "view_prop":
+                    from spec_classes import spec_property
+
+                    ns[a["name"]] = spec_property(_view_getter(a["name"], d[1]), cache=False, overridable=True)
                 elif style == "derived_prop":
                     from spec_classes import spec_property
 
@@ -731,6 +742,14 @@ class World:
                     import copy as _copy
 
                     self.twin = _copy.deepcopy(self)  # a copy taken while construction is still in progress
+
+                ns["__post_init__"] = __post_init__
+            views = [(a["name"], a["default"][1]) for a in c["attrs"] if a["default"][0] == "view_prop"]
+            if views and "__post_init__" not in ns:
+                def __post_init__(self, _views=tuple(views)):
+                    # the collections behind the view attributes belong to the instance from the start
+                    for name, kind in _views:
+                        vars(self).setdefault(f"_backing_{name}", {"list": list, "dict": dict, "set": set}[kind]())
 
                 ns["__post_init__"] = __post_init__
             if c.get("user_new") == "super":
@@ -888,6 +907,13 @@ def apply_preparer(how, v):
     if how == "bad_if_5":
         return "BAD" if v == 5 and not isinstance(v, bool) else v
     raise AssertionError(how)
+
+
+def _view_getter(name, kind):
+    def getter(instance):
+        return vars(instance).setdefault(f"_backing_{name}", {"list": list, "dict": dict, "set": set}[kind]())
+
+    return getter
 
 
 def _held_instance(obj, cls):
